@@ -71,6 +71,14 @@ def run(tier="quick", seed=1, replay=None):
             cfg = vf.write_cfg(wd, "Sim_MemEstimate.cfg", consts(4, 4, fine, "{0, 2000, 457}", gzos="{0, 3500, 30000}"), GEN_BODY)
             sims, _ = vf.gen_simulate("MemEstimate", cfg, wd, num=50 if quick else 3000, depth=6, seed=seed)
             cases = vf.dedupe(vals + sims)
+            # an architecture whose full-offload graph is larger than the partial one (llama, num_ctx 8), one GPU, and the free
+            # memory swept across every placement threshold (sum of a run of layers + either graph + output + projector + overhead)
+            import zlib
+            sweeps = [dict(c, arch="llama", ctx=8, sweep=True) for c in vals if len(c["gpus"]) == 1 and c["gpus"][0]["free"] == 24000]
+            if quick:
+                sweeps = [c for c in sweeps if (zlib.crc32(json.dumps(c, sort_keys=True).encode()) + seed) % 4 == 0]
+            cases += sweeps
+            cov["bounds"] += f"; {len(sweeps)} one-GPU llama-architecture cases (full graph > partial graph) with free memory at, just below and just above every placement threshold"
             for i, c in enumerate(cases):
                 c["id"] = i + 1
             cases += vf.load_witnesses(PROP)
@@ -90,7 +98,7 @@ def run(tier="quick", seed=1, replay=None):
             shown[key] = shown.get(key, 0) + 1
             if shown[key] > 2 or len(res.violations) >= 8:
                 continue
-            p = vf.save_replay(PROP, f"mem-{tier}-{seed}-{cid}.ndjson", json.dumps(by_id.get(cid)) + "\n")
+            p = vf.save_replay(PROP, f"mem-{tier}-{seed}-{cid.replace('/', '_')}.ndjson", json.dumps(by_id.get(cid.split("/")[0])) + "\n")
             res.violation(f"{flags}: {json.dumps(recs[ln - 1])[:600]}", p)
         cov["violating_cases"] = len(v["bad"])
         cov["violation_kinds"] = {",".join(k): n for k, n in shown.items()}
